@@ -31,6 +31,11 @@ VERIF = os.path.dirname(os.path.dirname(os.path.abspath(__file__)))
 EVIDENCE_DIR = os.path.join(VERIF, "evidence")
 REPLAY_DIR = os.path.join(VERIF, "replays")
 KNOWN = os.path.join(VERIF, "known_findings.json")
+if os.path.realpath(os.environ.get("VERIF_REPO") or "/repo") != "/repo":
+    # development runs against a scratch tree never touch the committed evidence / replays
+    _scratch = os.path.join("/tmp/verif_scratch", os.path.basename(os.path.realpath(os.environ["VERIF_REPO"])))
+    EVIDENCE_DIR = os.path.join(_scratch, "evidence")
+    REPLAY_DIR = os.path.join(_scratch, "replays")
 SCHEMA = "/root/.vp/EVIDENCE.schema.json"
 
 MAX_STATE_HASHES = 4_000_000  # memory guard for the merged set of state hashes
@@ -240,9 +245,12 @@ def assert_repo():
     import acnportal
 
     p = os.path.realpath(acnportal.__file__)
-    if not p.startswith("/repo/"):
-        print("HARNESS-ERROR acnportal imported from %s, not /repo" % p, file=sys.stderr)
+    want = os.path.realpath(os.environ.get("VERIF_REPO") or "/repo").rstrip("/") + "/"
+    if not p.startswith(want):
+        print("HARNESS-ERROR acnportal imported from %s, not %s" % (p, want), file=sys.stderr)
         sys.exit(3)
+    if want != "/repo/":
+        print("NOTE: checking the scratch tree %s (VERIF_REPO), not /repo" % want, file=sys.stderr)
 
 
 def main(argv=None):
